@@ -290,6 +290,10 @@ def _expand(P, o, depth, kw):
         return [o]
     t = o.site.t
     callee = t.get("resolved")
+    if not t.get("local"):
+        exp = _expand_combinator(P, o, depth, kw)
+        if exp is not None:
+            return exp
     if not (t.get("local") and not t.get("dyn") and callee in P.bodies):
         return [o]
     cb = P.bodies[callee]
@@ -310,3 +314,42 @@ def _expand(P, o, depth, kw):
     if not any(i.kind == "call" for i in res) and not proj:
         return [o]
     return res
+
+
+# Option / Result combinators that run the closures they are handed before they return and whose result is (or wraps) what a
+# closure returned - `opt.map_or_else(|| a(), |x| b(x))` for `match opt { None => a(), Some(x) => b(x) }`
+VALUE_COMBINATORS = {"map_or_else", "map_or", "unwrap_or_else", "map", "and_then", "or_else", "ok_or_else", "unwrap_or", "or", "ok_or"}
+
+
+def _expand_combinator(P, o, depth, kw):
+    """the value of `recv.<combinator>(.., closure, ..)`: what the closures written at the call site return (their captures
+    followed back into the calling function) and the plain-value arguments (`map_or(default, ..)`).  None when the call is not such
+    a combinator or a closure is not one written at the call site."""
+    name = o.name or ""
+    if name.rsplit("::", 1)[-1] not in VALUE_COMBINATORS or not (name.startswith("std::option::Option") or name.startswith("std::result::Result")):
+        return None
+    if o.path:
+        return None
+    site, res, n_closures = o.site, [], 0
+    for a in site.args[1:]:
+        aos = origins(site.body, a, **kw)
+        cl = [x for x in aos if x.kind == "agg" and x.name in P.bodies and x.extra is not None and P.bodies[x.name].kind == "closure"]
+        if not cl:
+            res += aos          # a plain default value
+            continue
+        if len(cl) != len(aos):
+            return None
+        for x in cl:
+            n_closures += 1
+            cb, st = P.bodies[x.name], x.extra[1]
+            fs = st["rv"].get("fields") or []
+            for i in origins(cb, {"l": 0, "p": []}, **kw):
+                if i.kind == "upvar" and i.name in fs and len(fs) == len(st["rv"]["ops"]):
+                    for po in origins(site.body, st["rv"]["ops"][fs.index(i.name)], **kw):
+                        res += _expand(P, Origin(po.kind, po.name, po.site, tuple(po.path) + tuple(i.path), po.body, po.extra), depth - 1, kw)
+                elif i.kind == "param":
+                    # the payload of the receiver: stands for the receiver itself
+                    res += origins(site.body, site.args[0], **kw)
+                else:
+                    res += _expand(P, i, depth - 1, kw)
+    return res if n_closures else None
